@@ -116,10 +116,12 @@ Definition fuel0 (cfg : config) : nat := S (fold_right Nat.max 0 (map q_rank (qu
 (* ------------------------------------------------------------ the static check *)
 (* a by-product pattern is harmless: it names one key of a variable table or
    of the settings, never node ids / coordinates / connectivity and never a
-   whole table (which could hit a variable the user stored) *)
+   whole variable table (which could hit a variable the user stored) *)
 Definition core_tables : list string := ["nodes"; "elements"].
+Definition var_tables : list string := ["nodal_data"; "elemental_data"].
 Definition derived_pat (p : fpat) : bool :=
-  negb (smem (fst p) core_tables) && match snd p with Some _ => true | None => false end.
+  negb (smem (fst p) core_tables) &&
+  match snd p with Some _ => true | None => negb (smem (fst p) var_tables) end.
 
 Inductive failure :=
 | FStaleLru (q e : string)        (* effect e changes what q reads but keeps q's lru entries *)
